@@ -73,22 +73,22 @@ class PARAMETER(TREElement):
 
 
 class BAND(TREElement):
-    def __init__(self, value):
+    def __init__(self, value, BAPF):
         super(BAND, self).__init__()
-        if self.BAPF == 'I':
+        if BAPF == 'I':
             self.add_field('APN', 'd', 10, value)
-        if self.BAPF == 'R':
+        if BAPF == 'R':
             self.add_field('APR', 'ieee754_binary32', 4, value)
-        if self.BAPF == 'A':
+        if BAPF == 'A':
             self.add_field('APA', 's', 20, value)
 
 
 class AUX_B(TREElement):
-    def __init__(self, value):
+    def __init__(self, value, COUNT):
         super(AUX_B, self).__init__()
         self.add_field('BAPF', 's', 1, value)
         self.add_field('UBAP', 's', 7, value)
-        self.add_loop('BANDs', self.COUNT, BAND, value)
+        self.add_loop('BANDs', COUNT, BAND, value, self.BAPF)
 
 
 class AUX_C(TREElement):
@@ -136,7 +136,7 @@ class BANDSBType(TREElement):
         if existence_mask & 0x00000001:
             self.add_field('NUM_AUX_B', 'd', 2, value)
             self.add_field('NUM_AUX_C', 'd', 2, value)
-            self.add_loop('AUX_Bs', self.NUM_AUX_B, AUX_B, value)
+            self.add_loop('AUX_Bs', self.NUM_AUX_B, AUX_B, value, self.COUNT)
             self.add_loop('AUX_Cs', self.NUM_AUX_C, AUX_C, value)
 
 
